@@ -869,6 +869,27 @@ func runC12(c *Ctx) {
 				byName[pinParamName(q)] = q
 			}
 			sites := deepCallsTo(fn, helper)
+			// a site inside a shared helper that sits on the arm of a boolean parameter this entry point binds to the
+			// other constant is not reached from here (setSourceBlocked(..., block bool))
+			{
+				var live []deepCall
+				for _, dc := range sites {
+					dead := false
+					if h := dc.Call.Parent(); h != fn {
+						for _, l := range guardsOf(dc.Call.Block()) {
+							if q, isPrm := stripConv(l.Cond).(*ssa.Parameter); isPrm && q.Parent() == h {
+								if isConstBool(dc.translate(q), !l.Pos) {
+									dead = true
+								}
+							}
+						}
+					}
+					if !dead {
+						live = append(live, dc)
+					}
+				}
+				sites = live
+			}
 			good := len(sites) > 0
 			why := spec.method + " does not reach " + spec.helper
 			if len(sites) == 0 {
